@@ -45,6 +45,10 @@ CLAIMS['C13'] = ('Bounded symbolic model checking of frame conditions on the rea
     'prescription snapshot and to_dict() unchanged by paraxial / aberration / trace queries, repeated query = same terms, third call of (A,B,A) equals the first (no stale state or caches), '
     'ray 0 of a 2-ray batch = the 1-ray trace, SpotDiagram queries leave the stored data untouched (uninterpreted tracer). Equality of symbolic result terms is decided by the solver.',
     'what is decided is that the second call computes the same real function of the same state; bit-identity of floats is not claimed; Newton-Raphson batch coupling only in the thorough tier; sequences of <=3 calls, <=3 rays')
+CLAIMS['C19'] = ('Bounded symbolic model checking of Optic.to_dict / from_dict and every registered to_dict/from_dict pair: for K=2 lenses covering each geometry, medium, coating, BSDF, aperture, field/wavelength/unit, '
+    'aperture type, telecentric flag, pickup, solve, polarization state - all numeric leaves symbolic - the reloaded lens has a leaf-wise equal dictionary form (solver-decided term equality), equal prescription snapshot, equal paraxial terms and equal ray-trace records; '
+    'every leaf is a JSON type; the same after each edit operation. The concrete replay additionally goes through a real JSON file.',
+    'byte-level float round trip of JSON is CPython repr/float contract (assumed); catalogue Material lookups not symbolic; K=2; numba-compiled BSDF parameters concrete')
 NOT_YET = 'check not built yet in this round (work in progress; see DESIGN.md section 6 for the plan)'
 
 props = [json.loads(l) for l in open(os.path.join(ROOT, 'properties.jsonl'))]
